@@ -22,7 +22,24 @@ import (
 
 var algoNames = []string{"deltran", "acctran", "downpass", "none"}
 
+// priorAlgo >= 0: the next doAcr / doAsr first runs that algorithm on the SAME tree object (a two-step history; the
+// result of the second run must not depend on the first).  Written in the algo field as "algo~prior".
+var priorAlgo = -1
+
+func algoField(algo int) string {
+	if priorAlgo >= 0 {
+		return algoNames[algo] + "~" + algoNames[priorAlgo]
+	}
+	return algoNames[algo]
+}
+
 func algoIndex(s string) int {
+	priorAlgo = -1
+	if i := strings.IndexByte(s, '~'); i >= 0 {
+		p := algoIndex(s[i+1:])
+		s = s[:i]
+		priorAlgo = p
+	}
 	for i, a := range algoNames {
 		if a == s {
 			return i
@@ -137,10 +154,15 @@ func copyMap(m map[string]string) map[string]string {
 
 func doAcr(c *core.Ctx, n *core.N, tips map[string]string, algo int) {
 	keys, vals := sortedMap(tips)
-	in := []string{n.Dump(), core.StrList(keys), core.StrList(vals), algoNames[algo]}
+	in := []string{n.Dump(), core.StrList(keys), core.StrList(vals), algoField(algo)}
+	prior := priorAlgo
+	priorAlgo = -1
 	t, err := core.Build(n)
 	if err != nil {
 		panic(err)
+	}
+	if prior >= 0 {
+		core.Safe(func() { acr.ParsimonyAcr(t, copyMap(tips), prior, false) })
 	}
 	var statemap map[string]string
 	var nsteps int
@@ -214,6 +236,9 @@ func treeOpts(g *core.G) core.TreeOpts {
 	o.MaxDeg = 6
 	if g.Chance(0.15) {
 		o.Singles = 0.15
+	}
+	if g.Chance(0.15) { // nodes / branches that already bear comments (ACR replaces them, ASR appends)
+		o.Comments = 0.3
 	}
 	if g.Chance(0.1) {
 		o.MaxTips = 30
@@ -302,6 +327,9 @@ func acrCase(c *core.Ctx) {
 			}
 		}
 		rec(n)
+	}
+	if g.Chance(0.12) {
+		priorAlgo = g.Intn(4)
 	}
 	doAcr(c, n, tips, algo)
 }
@@ -577,7 +605,9 @@ func nodeComments(n *core.N, out *[]string) {
 }
 
 func doAsr(c *core.Ctx, n *core.N, names, seqs []string, algo int, prot bool) {
-	in := []string{n.Dump(), core.StrList(names), core.StrList(seqs), algoNames[algo]}
+	in := []string{n.Dump(), core.StrList(names), core.StrList(seqs), algoField(algo)}
+	prior := priorAlgo
+	priorAlgo = -1
 	op := "C12.asr"
 	if prot {
 		op = "C12.asrp"
@@ -593,6 +623,11 @@ func doAsr(c *core.Ctx, n *core.N, names, seqs []string, algo int, prot bool) {
 	if err != nil {
 		fail("err")
 		return
+	}
+	if prior >= 0 && prior < 3 {
+		if a0, e0 := mkAlign(names, seqs, prot); e0 == nil {
+			core.Safe(func() { asr.ParsimonyAsr(t, a0, prior, false) })
+		}
 	}
 	var nsteps []int
 	var rerr error
@@ -728,6 +763,9 @@ func asrCase(c *core.Ctx) {
 		seqs = append(seqs[:i:i], seqs[i+1:]...)
 	}
 	algo := g.Intn(3)
+	if c.G.Chance(0.12) {
+		priorAlgo = c.G.Intn(3)
+	}
 	doAsr(c, n, names, seqs, algo, false)
 }
 
@@ -746,6 +784,12 @@ func protSeqs(g *core.G, nseq int, detectable bool) []string {
 		st := make([]byte, nst)
 		for i := range st {
 			st[i] = pool[g.Intn(len(pool))]
+		}
+		if mode == 2 && g.Chance(0.4) && !(j == 0 && detectable) { // the gap (or the stop) as a regular state of the column, next to X tips
+			st[g.Intn(nst)] = "-*"[g.Intn(2)]
+			if g.Chance(0.5) {
+				st[g.Intn(nst)] = '-'
+			}
 		}
 		col := make([]byte, nseq)
 		prev := st[g.Intn(nst)]
@@ -1049,10 +1093,16 @@ func cliAcrFull(c *core.Ctx, ns []*core.N, lines []string, algoS, opts string) {
 			os.Remove(f + ".gz")
 		}
 	}()
-	args := []string{"acr", "--algo", algoS}
+	args := []string{"acr"}
+	if !has(opts, "algo-default") { // --algo omitted: the flag default applies (the model: cliDefaultAlgo)
+		args = append(args, "--algo", algoS)
+	}
 	stdin := ""
 	if has(opts, "states-stdin") {
 		stdin = statesTxt // --states omitted: the default is stdin
+		if has(opts, "dash") {
+			args = append(args, "--states", "-") // the other spelling of stdin
+		}
 	} else if has(opts, "gz") {
 		f := tmp("") + ".gz"
 		os.WriteFile(f, []byte(gz(statesTxt)), 0644)
@@ -1150,6 +1200,17 @@ func sameTipTrees(g *core.G, k int) []*core.N {
 	return ns
 }
 
+// one full-CLI case in seven leaves --algo out
+func withDefaultAlgo(g *core.G, opts string) string {
+	if !g.Chance(0.15) {
+		return opts
+	}
+	if opts == "" {
+		return "algo-default"
+	}
+	return opts + ",algo-default"
+}
+
 func pickOpts(g *core.G, all []string, p float64) string {
 	var o []string
 	for _, x := range all {
@@ -1200,6 +1261,7 @@ func cliAcrFullCase(c *core.Ctx) {
 		algoS = algoSpellings[g.Intn(9)]
 	}
 	opts := pickOpts(g, []string{"states-stdin", "tree-stdin", "dash", "gz", "o-file", "steps-file", "states-out", "no-final-newline"}, 0.4)
+	opts = withDefaultAlgo(g, opts)
 	cliAcrFull(c, ns, lines, algoS, opts)
 }
 
@@ -1245,7 +1307,10 @@ func cliAsrFull(c *core.Ctx, ns []*core.N, names, seqs []string, algoS, opts str
 			os.Remove(f)
 		}
 	}()
-	args := []string{"asr", "--algo", algoS}
+	args := []string{"asr"}
+	if !has(opts, "algo-default") {
+		args = append(args, "--algo", algoS)
+	}
 	stdin := ""
 	if has(opts, "align-stdin") {
 		stdin = sb.String()
@@ -1334,6 +1399,7 @@ func cliAsrFullCase(c *core.Ctx) {
 		algoS = algoSpellings[g.Intn(9)]
 	}
 	opts := pickOpts(g, []string{"align-stdin", "tree-stdin", "phylip", "strict", "o-file", "log-file"}, 0.4)
+	opts = withDefaultAlgo(g, opts)
 	cliAsrFull(c, ns, names, seqs, algoS, opts)
 }
 
